@@ -243,6 +243,9 @@ pub struct WasmGenerator {
     alloc_ptr_global: u32,
     /// Local variable index for saving alloc pointer at entry-function start (i32)
     alloc_ptr_save_local: u32,
+    /// Local variable index holding the address of a callee's multi-word result while it is
+    /// copied into memory owned by the caller (i64)
+    aggregate_ret_local: u32,
     /// Whether the current function being generated is an entry point (dsp or _mimium_global).
     /// Entry functions save/restore the alloc pointer to prevent unbounded memory growth.
     is_entry_function: bool,
@@ -415,6 +418,7 @@ impl WasmGenerator {
             alloc_base_local: 0,
             alloc_ptr_global: 0,
             alloc_ptr_save_local: 0,
+            aggregate_ret_local: 0,
             is_entry_function: false,
             use_runtime_alloc_for_current_function: false,
             call_type_cache: HashMap::new(),
@@ -1140,6 +1144,10 @@ impl WasmGenerator {
             // Extra i32 local for saving alloc pointer at entry function start
             locals.push((1, ValType::I32));
             self.alloc_ptr_save_local = self.alloc_base_local + 1;
+
+            // Extra i64 local for the address of a callee's multi-word result
+            locals.push((1, ValType::I64));
+            self.aggregate_ret_local = self.alloc_ptr_save_local + 1;
 
             // Create a new WASM function
             let mut wasm_func = Function::new(locals);
@@ -3402,6 +3410,7 @@ impl WasmGenerator {
                             _ => {}
                         }
                     }
+                    self.emit_own_aggregate_result(*ret_ty, func);
                 }
             }
 
@@ -3521,6 +3530,7 @@ impl WasmGenerator {
                         {
                             func.instruction(&W::F64ReinterpretI64);
                         }
+                        self.emit_own_aggregate_result(*ret_ty, func);
                     }
                 }
             }
@@ -3905,6 +3915,7 @@ impl WasmGenerator {
                         {
                             func.instruction(&W::F64ReinterpretI64);
                         }
+                        self.emit_own_aggregate_result(*ret_ty, func);
                     }
                 }
             }
@@ -4040,6 +4051,39 @@ impl WasmGenerator {
                 };
             }
         }
+    }
+
+    /// Helper: make the caller own the multi-word (tuple/record) result of a call.
+    ///
+    /// A function hands back such a result as the address of storage it owns. For a leaf
+    /// function that is a compile-time fixed area shared by all its invocations, so a second
+    /// call would overwrite a first result that is still in use
+    /// (`pair(1.0).1 + pair(5.0).1`, `f(pair(1.0), pair(5.0))`). Copy the words into fresh
+    /// bump-allocated memory right after the call, before anything else can run.
+    ///
+    /// Stack: `[i64 address]` -> `[i64 address of the copy]`; any other result is left as is.
+    fn emit_own_aggregate_result(&mut self, ret_ty: TypeNodeId, func: &mut Function) {
+        use wasm_encoder::Instruction as W;
+        let words = ret_ty.word_size() as u32;
+        if words <= 1 || !matches!(ret_ty.to_type(), Type::Tuple(_) | Type::Record(_)) {
+            return;
+        }
+        func.instruction(&W::LocalSet(self.aggregate_ret_local));
+        self.emit_runtime_alloc(words * 8, func);
+        for i in 0..words {
+            let memarg = MemArg {
+                offset: (i * 8) as u64,
+                align: 3,
+                memory_index: 0,
+            };
+            func.instruction(&W::LocalGet(self.alloc_base_local));
+            func.instruction(&W::LocalGet(self.aggregate_ret_local));
+            func.instruction(&W::I32WrapI64);
+            func.instruction(&W::I64Load(memarg));
+            func.instruction(&W::I64Store(memarg));
+        }
+        func.instruction(&W::LocalGet(self.alloc_base_local));
+        func.instruction(&W::I64ExtendI32U);
     }
 
     /// Helper: Emit a runtime bump allocation of `size_bytes` bytes.
